@@ -249,6 +249,31 @@ func RunSizes(col *ev.Collector) Stats {
 				col.Add(ev.Violation{Property: "C16", Signature: "C16|v2|size|round-trip", What: fmt.Sprintf("entry payload %d bytes, message %d of the stream: sent {%s} received {%s} err %v", size, n, desc(&m), desc(&got), err)})
 			}
 		}
+		// two groups share the stream: group A appends, group B sends one message of the size under test,
+		// group A continues where it stopped (its message is a continuation only in group A's context)
+		{
+			var xb bytes.Buffer
+			xenc := rafthttp.VerifNewV2Enc(&xb)
+			xdec := rafthttp.VerifNewV2Dec(&xb, Local, Remote)
+			q := pairs[1]
+			a1 := raftpb.Message{Type: raftpb.MsgApp, From: p[0].RaftReplicaId, To: p[1].RaftReplicaId, FromGroup: p[0], ToGroup: p[1], Term: 1, LogTerm: 1, Index: 0, Entries: ents(0, 1, 1, 3), Commit: 0}
+			b1 := raftpb.Message{Type: raftpb.MsgApp, From: q[0].RaftReplicaId, To: q[1].RaftReplicaId, FromGroup: q[0], ToGroup: q[1], Term: 1, LogTerm: 1, Index: 0, Entries: ents(0, 1, 1, size), Commit: 0}
+			a2 := raftpb.Message{Type: raftpb.MsgApp, From: p[0].RaftReplicaId, To: p[1].RaftReplicaId, FromGroup: p[0], ToGroup: p[1], Term: 1, LogTerm: 1, Index: 1, Entries: ents(1, 1, 1, 3), Commit: 1}
+			b2 := raftpb.Message{Type: raftpb.MsgApp, From: q[0].RaftReplicaId, To: q[1].RaftReplicaId, FromGroup: q[0], ToGroup: q[1], Term: 1, LogTerm: 1, Index: 1, Entries: ents(1, 1, 1, 3), Commit: 1}
+			for n, m := range []raftpb.Message{a1, b1, a2, b2} {
+				if perr := safely(func() error { return xenc.Encode(&m) }); perr != nil {
+					col.Add(ev.Violation{Property: "C16", Signature: "C16|v2|size|interleaved-encode", What: fmt.Sprintf("two groups, payload %d, message %d: %v", size, n, perr)})
+					break
+				}
+				var got raftpb.Message
+				err := safely(func() (e error) { got, e = xdec.Decode(); return })
+				st.Transitions++
+				if err != nil || !same(&got, &m) {
+					col.Add(ev.Violation{Property: "C16", Signature: "C16|v2|size|interleaved-round-trip", What: fmt.Sprintf("two groups on one stream, group B's entry payload %d bytes, message %d of [A, B(big), A-continues, B-continues]: sent {%s} received {%s} err %v", size, n, desc(&m), desc(&got), err)})
+					break
+				}
+			}
+		}
 		var gb bytes.Buffer
 		gdec := rafthttp.VerifNewMsgDec(&gb)
 		for n, m := range []raftpb.Message{first, third, second} {
